@@ -12,6 +12,9 @@ import (
 	"a0verif/plan"
 )
 
+// MaxKeep bounds the copy of delivered bytes kept for the oracles.
+const MaxKeep = 1 << 20
+
 var ErrSim = errors.New("simulated device failure")
 var ErrWrappedEOF = fmt.Errorf("simulated device: %w", io.EOF)
 
@@ -96,7 +99,12 @@ func (x *Dev) Read(p []byte) (int, error) {
 	for i := 0; i < k; i++ {
 		p[i] = x.byteAt(x.Pos + i)
 	}
-	x.Delivered = append(x.Delivered, p[:k]...)
+	if room := MaxKeep - len(x.Delivered); room > 0 { // the log keeps the first MaxKeep bytes only
+		if room > k {
+			room = k
+		}
+		x.Delivered = append(x.Delivered, p[:room]...)
+	}
 	x.Pos += k
 	if x.FirstErr >= 0 {
 		x.AfterErr++
